@@ -20,7 +20,7 @@ RULE = ("seeded programs of 1-5 modes (fock: 1-3) with up to 30 commands over al
         "non-vacuum state; distinct = rounded program + backend.")
 ASSUMPTIONS = [
     "invariants are evaluated only between commands, on state exposed by backend.state()",
-    "trace-loss budget: 50 * (sum over steps of the reference tail mass beyond the cutoff) + 1e-9; "
+    "trace-loss budget: 500 * (sum over steps of the reference tail mass beyond the cutoff) + 1e-6; "
     "Fock conservation tolerances 20*sqrt(tau*)+1e-8, evaluated only while tau* <= 1e-6",
     "eigenvalue tolerances -1e-9 (relative to the covariance scale)",
 ]
@@ -103,7 +103,11 @@ def gen_case(rng, simrun, backend):
                 else:
                     dm = 0.7 * np.outer(ket, ket.conj()) + 0.3 * np.diag([1.0] + [0.0] * (D - 1))
                     c = {"op": k, "p": [enc(dm)], "m": [m], "dag": False}
-            spec["cmds"].insert(int(rng.integers(len(spec["cmds"]) // 3, len(spec["cmds"]) + 1)), c)
+            if backend == "bosonic":
+                # (accepted by the bosonic backend only as the first operation on its mode, with no other preparation there)
+                spec["cmds"] = [c] + [x for x in spec["cmds"] if not (x["op"] in simrun.PREPS + ["Gaussian", "Catstate", "GKP"] and m in x["m"])]
+            else:
+                spec["cmds"].insert(int(rng.integers(len(spec["cmds"]) // 3, len(spec["cmds"]) + 1)), c)
     if rng.random() < 0.3 and (not fock or n <= 2) and not locals().get("no_extension"):
         # subsystems created / deleted in the middle of the program, on entangled states (New on bosonic: recorded
         # finding under C08, not exercised here)
